@@ -76,11 +76,12 @@ Depth3(op, ng) ==
          IN  {t \in {Grp(op, <<x, Lf(5, g5)>>, ng) : x \in RandomSubset(Depth3Samples, ok), g5 \in BOOLEAN} : Positive(t)}
             \cup {t \in {Grp(op, <<Lf(5, g5), x, Lf(6, FALSE)>>, ng) : x \in RandomSubset(Depth3Samples, ok), g5 \in BOOLEAN} : Positive(t)}
 
-StylesUsed == IF StyleMode = 1 THEN Styles
+StylesUsed == {DnegStyle} \cup
+              IF StyleMode = 1 THEN Styles
               ELSE {PlainStyle,
-                    [unit |-> TRUE, chain |-> TRUE, top |-> TRUE, negout |-> TRUE, rev |-> TRUE, drop |-> FALSE],
-                    [unit |-> FALSE, chain |-> TRUE, top |-> FALSE, negout |-> FALSE, rev |-> TRUE, drop |-> FALSE],
-                    [unit |-> TRUE, chain |-> FALSE, top |-> TRUE, negout |-> FALSE, rev |-> FALSE, drop |-> FALSE]}
+                    [unit |-> TRUE, chain |-> TRUE, top |-> TRUE, negout |-> TRUE, rev |-> TRUE, drop |-> FALSE, dneg |-> FALSE],
+                    [unit |-> FALSE, chain |-> TRUE, top |-> FALSE, negout |-> FALSE, rev |-> TRUE, drop |-> FALSE, dneg |-> FALSE],
+                    [unit |-> TRUE, chain |-> FALSE, top |-> TRUE, negout |-> FALSE, rev |-> FALSE, drop |-> FALSE, dneg |-> FALSE]}
 
 (* ------------------------- cases ----------------------------------------- *)
 (* kind "ast": one rule rendered from ast; "chain": superiors chain; "alias": alias use with its
@@ -261,12 +262,14 @@ Spec == Init /\ [][Next]_vars
 (* ------------------------- invariants --------------------------------------- *)
 Den(files, m) == Denote(files, Env, m)
 (* precedence and grouping are unambiguous: every style reads back as the tree it came from *)
+HasDoubleNegation(toks) == \E i \in 1..(Len(toks) - 3) : toks[i] = "not" /\ toks[i + 1] = "(" /\ toks[i + 2] = "not" /\ toks[i + 3] = "("
 RoundTrip == (stage = 2 /\ case.kind = "ast") =>
     LET d == Den(case.files, case.mult) IN
     /\ WellFormed(ast, FALSE) /\ Norm(ast) = ast
-    /\ d.ok /\ d.soft = {} /\ Len(d.st.rules) = 1
-    /\ d.st.rules[1].ast = ast
-    /\ d.st.rules[1].cutoff = 10000 /\ d.st.rules[1].nbhd = 20000
+    /\ \/ (HasDoubleNegation(case.files[1]) /\ ~d.ok)   \* a doubly negated operand is no positive requirement
+       \/ /\ d.ok /\ d.soft = {} /\ Len(d.st.rules) = 1
+          /\ d.st.rules[1].ast = ast
+          /\ d.st.rules[1].cutoff = 10000 /\ d.st.rules[1].nbhd = 20000
 (* the meaning used to compare trees: a tree means what it means, never what its negation means, and a
    chain means the same with its operands reversed *)
 EquivSane == (stage = 2 /\ case.kind = "ast" /\ case.sep = 3 /\ LeafCount(ast) <= 3) =>
